@@ -24,9 +24,9 @@ CHECKS = {
     "C08": dict(cat="other", ref="DESIGN.md §4 C08, §11", technique="E1: CrossHair symbolic execution of Message.to_io/from_io over the real Popen2IO/SocketIO/ProxyIO adapters with symbolic message fields and chunking; E2: bounded model checking (z3) of concurrent BaseGateway._send callers down to the low-level write contract, counterexamples replayed on the real SocketIO/Popen2IO",
                 text="Bounded symbolic check of framing under arbitrary chunking on all transports' adapters, plus bounded model checking over all schedules of 2-3 concurrent senders that the wire is a concatenation of whole frames (socket.sendall modelled as non-atomic partial sends).",
                 note=E1_NOTE + "; E2 part trusts the translator (validated per run), the sendall/BufferedWriter contracts stated in the evidence and z3"),
-    "C04": dict(cat="other", ref="DESIGN.md §4 C04", technique="CrossHair symbolic execution of the real receiver-thread body over a stream cut at a symbolic byte offset with symbolic read chunking (Popen2IO and SocketIO)",
-                text="Bounded symbolic check over every cut offset of enumerated frame histories: delivered items are exactly the complete frames, then EOFError everywhere, endmarker once, gateway refuses further use. Several concurrently blocked waiters (schedules) are outside this check.",
-                note=E1_NOTE + "; the receiver thread body is executed synchronously, so interleavings with blocked user threads are not explored here"),
+    "C04": dict(cat="other", ref="DESIGN.md §4 C04, §11", technique="E1: CrossHair symbolic execution of the real receiver-thread body over a stream cut at a symbolic byte offset with symbolic read chunking (Popen2IO and SocketIO); E2: bounded model checking (z3) of the receiver thread's end-of-connection epilogue racing user threads blocked in receive()/waitclose() or inside setcallback(), counterexamples replayed on the real classes",
+                text="Bounded symbolic check over every cut offset of enumerated frame histories: delivered items are exactly the complete frames, then EOFError everywhere, endmarker once, gateway refuses further use; plus bounded model checking over all schedules of 2-3 blocked receivers, a waitclose caller and a setcallback caller against the connection-loss epilogue.",
+                note=E1_NOTE + "; E2 part trusts the translator (validated per run against the real classes), the queue/table models stated in the evidence and z3"),
     "C07": dict(cat="other", ref="DESIGN.md §4 C07", technique="CrossHair symbolic execution of the callback-error and remote-body-error paths over scripted frame histories (symbolic failure position, channel alive/dropped)",
                 text="Bounded symbolic check of failure histories on both sides of a channel; schedules with concurrently active user threads are outside this check.",
                 note=E1_NOTE + "; receiver thread bodies run synchronously (no interleaving with user threads)"),
